@@ -8,6 +8,7 @@ import (
 	"fmt"
 	"os"
 	"runtime/debug"
+	"runtime/pprof"
 	"strconv"
 	"time"
 
@@ -21,7 +22,15 @@ func main() {
 	repo := flag.String("repo", "/repo", "repository working tree to analyse")
 	verif := flag.String("verif", "/verif", "verification directory (rules, evidence, findings)")
 	replay := flag.String("replay", "", "findings file to replay (re-runs the check and shows that obligation)")
+	cpuprof := flag.String("cpuprofile", "", "write a CPU profile (development)")
 	flag.Parse()
+	if *cpuprof != "" {
+		f, err := os.Create(*cpuprof)
+		if err == nil {
+			pprof.StartCPUProfile(f)
+			defer pprof.StopCPUProfile()
+		}
+	}
 	if *tier == "" {
 		*tier = os.Getenv("VERIF_TIER")
 	}
@@ -85,5 +94,6 @@ func main() {
 			fmt.Println("obligation no longer exists on this tree")
 		}
 	}
+	pprof.StopCPUProfile()
 	os.Exit(code)
 }
